@@ -260,6 +260,81 @@ def gen_case(rng: random.Random, tier: str, bias: str = ''):
                 proc_cls=rng.choice(['mpservice', 'stdlib']), seed=rng.randrange(1 << 30))
 
 
+def _finals(objs, who='1'):
+    out = []
+    for o in objs:
+        h, a = f'o{o["addr"]}', o['addr']
+        if o['kind'] == 'list':
+            out.append(dict(who=who, h=h, addr=a, m='slice', py=['__getitem__', [{'$slice': [None, None, None]}]], keep=True, final=True))
+        elif o['kind'] == 'dict':
+            out.append(dict(who=who, h=h, addr=a, m='dcopy', py=['copy', []], keep=True, final=True))
+        elif o['kind'] == 'ns':
+            out.append(dict(who=who, h=h, addr=a, m='nsdict', py=['_callmethod', ['__getattribute__', {'$tuple': ['__dict__']}]],
+                            keep=True, final=True))
+        elif o['kind'] == 'value':
+            out.append(dict(who=who, h=h, addr=a, m='vget', py=['get', []], keep=True, final=True))
+        else:
+            out.append(dict(who=who, h=h, addr=a, m='cget', py=['get', []], final=True))
+            out.append(dict(who=who, h=h, addr=a, m='snapshot', py=['snapshot', []], final=True))
+    return out
+
+
+def boundary_cases():
+    """hand-written histories: the shapes of F22 / F23, every raising operation followed by a call on
+    the same connection, a managed() view changed from three sides, empty containers and edge indices"""
+    sl = ['__getitem__', [{'$slice': [None, None, None]}]]
+    objs = [dict(addr=0, kind='counter', init=0, log=1), dict(addr=2, kind='list', init=[]),
+            dict(addr=3, kind='dict'), dict(addr=4, kind='ns'), dict(addr=5, kind='value', init=1)]
+    a = [  # raise, then go on using the same connection (client 1); nested raise inside the server (F22)
+        dict(who='1', h='o0', addr=0, m='pokePop', py=['poke_pop', [{'$h': 'o2'}]], mref=2, keep=True),
+        dict(who='1', h='o0', addr=0, m='poke', py=['poke', [{'$h': 'o2'}, 'a']], mref=2, margs=['a']),
+        dict(who='1', h='o2', addr=2, m='pop', py=['pop', [5]], mint=[5], keep=True),
+        dict(who='1', h='o2', addr=2, m='popLast', py=['pop', []], keep=True),
+        dict(who='1', h='o2', addr=2, m='popLast', py=['pop', []], keep=True),
+        dict(who='1', h='o2', addr=2, m='getitem', py=['__getitem__', [-1]], mint=[-1], keep=True),
+        dict(who='1', h='o2', addr=2, m='setitem', py=['__setitem__', [0, None]], mint=[0], margs=[None]),
+        dict(who='1', h='o2', addr=2, m='insert', py=['insert', [-7, {'$h': 'o3'}]], mint=[-7], margs=[{'$h': 'o3'}]),
+        dict(who='1', h='o3', addr=3, m='dget', py=['__getitem__', [7]], margs=[7], keep=True),
+        dict(who='1', h='o3', addr=3, m='dpopitem', py=['popitem', []], keep=True),
+        dict(who='1', h='o3', addr=3, m='ddel', py=['__delitem__', ['a']], margs=['a']),
+        dict(who='1', h='o3', addr=3, m='dset', py=['__setitem__', [{'$tuple': [1, 'z']}, {'$h': 'o2'}]],
+             margs=[{'$tuple': [1, 'z']}, {'$h': 'o2'}]),
+        dict(who='1', h='o4', addr=4, m='nget', attr=['getattr', 'x'], mnat=[0], keep=True),
+        dict(who='1', h='o4', addr=4, m='ndel', attr=['delattr', 'y'], mnat=[1]),
+        dict(who='1', h='o4', addr=4, m='nset', attr=['setattr', 'x', {'$h': 'o5'}], mnat=[0], margs=[{'$h': 'o5'}]),
+        dict(who='1', h='o4', addr=4, m='nget', attr=['getattr', 'x'], mnat=[0], keep=True),
+    ] + [dict(who='1', h='o0', addr=0, m='fail', py=['fail', [t, [1, 'p']]], fail=t) for t in sorted(FAIL)] + [
+        dict(who='1', h='o0', addr=0, m='cget', py=['get', []]),
+        dict(who='1', h='o5', addr=5, m='vset', py=['set', [{'$h': 'o0'}]], margs=[{'$h': 'o0'}]),
+    ]
+    b = [  # a managed() view of the counter's log, changed through the owner, the view and in-server pokes
+        dict(who='0', h='o0', addr=0, m='history', py=['history', []], keepas='m0', new=[['m0', 1, 'cont']]),
+        dict(who='1', h='o0', addr=0, m='add', py=['add', [5]], mint=[5]),
+        dict(who='0', h='m0', addr=1, m='slice', py=sl, keep=True),
+        dict(who='0', h='m0', addr=1, m='append', py=['append', ['via-view']], margs=['via-view']),
+        dict(who='2', h='o0', addr=0, m='snapshot', py=['snapshot', []]),
+        dict(who='2', h='o0', addr=0, m='history', py=['history', []], keepas='m5', new=[['m5', 1, 'cont']]),
+        dict(who='2', h='o0', addr=0, m='poke', py=['poke', [{'$h': 'm5'}, 9]], mref=1, margs=[9]),
+        dict(who='0', h='m0', addr=1, m='popLast', py=['pop', []], keep=True),
+        dict(who='1', h='o0', addr=0, m='fail', py=['fail', ['key', 'k']], fail='key'),
+        dict(who='0', h='m0', addr=1, m='len', py=['__len__', []]),
+        dict(who='2', h='m5', addr=1, m='reverse', py=['reverse', []]),
+        dict(who='1', h='o0', addr=0, m='snapshot', py=['snapshot', []]),
+    ]
+    out = []
+    objs2 = objs[:2]
+    c = [dict(who=w, h='o0', addr=0, m='pokePop', py=['poke_pop', [{'$h': 'o2'}]], mref=2, keep=True) for w in ('0', '1')] + [
+        dict(who='1', h='o0', addr=0, m='poke', py=['poke', [{'$h': 'o2'}, 3]], mref=2, margs=[3]),
+        dict(who='0', h='o0', addr=0, m='pokePop', py=['poke_pop', [{'$h': 'o2'}]], mref=2, keep=True)]
+    out.append(dict(kind='proxycall', objs=objs2, clients=['0', '1'], ops=c + _finals(objs2), proc_cls='mpservice', seed=0,
+                    boundary='raise-inside-server'))
+    for name, ops, clients in (('raise-and-go-on', a, ['0', '1']), ('managed-view', b, ['0', '1', '2'])):
+        for pc in ('mpservice', 'stdlib'):
+            out.append(dict(kind='proxycall', objs=objs, clients=clients, ops=ops + _finals(objs, clients[-1]),
+                            proc_cls=pc, seed=0, boundary=name))
+    return out
+
+
 # ----------------------------------------------------------------------------------------------
 # director steps
 # ----------------------------------------------------------------------------------------------
